@@ -514,6 +514,26 @@ Proof.
     rewrite H5 in X. exact X.
 Qed.
 
+(* the report of the whole inspection contains what the undefined-task detector reports, and the
+   order in which inspect() lists the entries is a permutation of it *)
+Theorem semantics_reports_undefined : forall sp fuel l, inspect_semantics sp fuel = Val l ->
+  forall t d w i, reach sp t -> In (d, w, i) (spec_next_tasks sp t) -> ~ is_command d -> ~ declared sp d ->
+    In (SE_undefined t i d) l.
+Proof.
+  intros sp fuel l H t d w i Hr Hin Hc Hd. unfold inspect_semantics in H.
+  destruct (detect_undefined_tasks sp fuel) as [und|] eqn:Eu; [|discriminate].
+  destruct (detect_unreachable_tasks sp fuel) as [unr|]; [|discriminate].
+  injection H as H. subst l. apply in_or_app. right. apply in_or_app. right. apply in_or_app. left.
+  exact (undefined_reported sp fuel und Eu t d w i Hr Hin Hc Hd).
+Qed.
+
+Theorem semantics_sorted_perm : forall sp fuel l, inspect_semantics sp fuel = Val l ->
+  exists l', inspect_semantics_sorted sp fuel = Val l' /\ Permutation l' l.
+Proof.
+  intros sp fuel l H. unfold inspect_semantics_sorted. rewrite H. exists (sort_by entry_leb l).
+  split; [reflexivity|apply perm_sort_by].
+Qed.
+
 (* --------------------------------------------- (e) accepted definitions compose *)
 
 (* C14's compose_only_fuel_error asks for every target of every declared task to be defined;
